@@ -10,6 +10,10 @@ import numpy as np
 from common import gen_dem_net, gen_forest, gen_shape, ds_to_np
 
 IDX_DTYPES = ["int32", "int64", "uint32", "uint64"]
+# operations that are defined (and must terminate) on networks with loops
+LOOP_SAFE = {"rank", "isvalid", "nnodes", "idxs_pit", "n_upstream", "mask", "idxs_seq", "order_cells", "repair_loops",
+             "to_array", "upstream_area", "accuflux", "stream_order", "basins", "downstream", "upstream_sum", "dump_load",
+             "area", "bounds", "extent", "index_xy", "set_transform", "fillnodata", "stream_distance"}
 
 
 # ---------------------------------------------------------------------------------------------
@@ -45,9 +49,16 @@ def gen_world(rng, tier="quick", cls=None, min_cells=4):
         shape = (n,)
         ds = gen_forest(rng, n, fanin_bias=rng.choice([0.0, 0.4]))
     n = len(ds)
+    loops = False
+    if rng.random() < 0.15:
+        # arbitrary functional graph: cycles, trees hanging on cycles (incl. tributaries with a lower index
+        # than every cycle cell); only LOOP_SAFE operations run on such worlds
+        from common import gen_funcgraph
+        ds = gen_funcgraph(rng, n, p_nodata=0.1)
+        loops = True
     if not any(ds[i] == i for i in range(n)):
         v = [i for i in range(n) if ds[i] != n]
-        ds[v[0]] = v[0]
+        ds[v[-1]] = v[-1]
     res = rng.choice([(1, -1), (1, -1), (3, -4), (2, -2), (0.5, -0.25), (4, 3)])
     latlon = cls == "raster" and rng.random() < 0.25
     if latlon:
@@ -55,7 +66,7 @@ def gen_world(rng, tier="quick", cls=None, min_cells=4):
     north = rng.choice([0, 40, -10]) if latlon else rng.choice([0, 100])
     w = {"cls": cls, "ds": ds, "shape": list(shape), "dtype": "int32",
          "transform": [res[0], 0, rng.choice([0, 10]), 0, res[1], north], "latlon": latlon,
-         "cache": rng.random() < 0.8, "noncontig": rng.random() < 0.3}
+         "cache": rng.random() < 0.8, "loops": loops, "noncontig": rng.choice([None, None, None, None, "strided", "fortran", "transposed"])}
     valid = [i for i in range(n) if ds[i] != n]
     # distinct upstream areas (no exact ties): accumulate distinct local areas
     loc = list(range(1, n + 1))
@@ -92,11 +103,16 @@ class World:
     def arr(self, key_or_list, dt):
         v = self.w[key_or_list] if isinstance(key_or_list, str) else key_or_list
         a = np.array(v, dtype=dt).reshape(self.shape)
-        if self.w.get("noncontig") and a.ndim == 2:
-            # same values as a non-contiguous view (a window of a larger array, as users slice rasters)
-            big = np.zeros((a.shape[0], 2 * a.shape[1]), dtype=a.dtype)
-            big[:, ::2] = a
-            a = big[:, ::2]
+        lay = self.w.get("noncontig")
+        if lay and a.ndim == 2:
+            if lay == "fortran":          # same values, column-major memory
+                a = np.asfortranarray(a)
+            elif lay == "transposed":     # a transposed view of the transposed data
+                a = np.ascontiguousarray(a.T).T
+            else:                         # a strided window of a larger array, as users slice rasters
+                big = np.zeros((a.shape[0], 2 * a.shape[1]), dtype=a.dtype)
+                big[:, ::2] = a
+                a = big[:, ::2]
         return a
 
     def uparea_distinct(self):
